@@ -519,9 +519,76 @@ def run(chk, facts, tier, only=None):
                        f"(result goes to `{how}`, inside a loop: {in_loop})", where=where(t, n),
                        ok_detail="insert(idl_hash(name), name) = Some(previous) ⇒ bail!")
 
+    # ------------------------------------------------------------------------------------------------ R4
+    def r4():
+        """The declaration pass (check_defs and what it calls, run with env.pre = true) sees an environment in which the definitions checked
+        so far are real and the others are still `unknown`.  A test that *follows* a name through that environment would make acceptance depend
+        on the order of the definitions — and the type-level printer emits them in name order, not in source order.  So, in every function
+        reachable from check_defs: a lookup may only test that the name exists (its value is dropped after `?`), and any call that resolves a
+        name further is under a `!env.pre` guard."""
+        root = cp.fn(r"^candid_parser::typing::check_defs$")
+        scope, todo = {root["key"]: root}, [root]
+        while todo:
+            g = todo.pop()
+            for n in walk(g["body"]):
+                if n.get("k") in ("call", "mcall"):
+                    k = callee(n)
+                    if k and k.startswith("candid_parser::typing::") and k in cp.hir and k not in scope and cp.hir[k].get("body") is not None:
+                        scope[k] = cp.hir[k]
+                        todo.append(cp.hir[k])
+        chk.floor("functions of the declaration pass", len(scope), 4)
+        RESOLVE = re.compile(r"type_env::TypeEnv::(\w+)$")
+        EXISTS_ONLY = {"find_type"}
+        def not_pre(e):
+            e = unblock(e)
+            return isinstance(e, dict) and e.get("k") == "un" and e.get("op") == "Not" and (expr_path(e["a"]) or "").endswith(".pre")
+        def conj(e):
+            e = unblock(e)
+            if isinstance(e, dict) and e.get("k") == "bin" and e.get("op") == "And":
+                return conj(e["a"]) + conj(e["b"])
+            return [e]
+        def guarded(t, n):
+            cur = n
+            for p in t.ancestors(n):
+                if p.get("k") == "bin" and p.get("op") == "And" and any(x is cur for x in walk(p["b"])) and any(not_pre(x) for x in conj(p["a"])):
+                    return True
+                if p.get("k") == "if" and any(x is cur for x in walk(p["t"])) and any(not_pre(x) for x in conj(p["c"])):
+                    return True
+                cur = p
+            return False
+        n_sites = 0
+        for k, g in sorted(scope.items()):
+            t = tree(cp, "^" + re.escape(k) + "$")
+            for n in walk(g["body"]):
+                if n.get("k") not in ("call", "mcall"):
+                    continue
+                m = RESOLVE.search(callee(n) or "")
+                if not m or "type_env::TypeEnv" not in (callee(n) or ""):
+                    continue
+                meth = m.group(1)
+                recv_ty = n.get("recv_ty") or ""
+                n_sites += 1
+                kind, at = U.consumer(t, n)
+                dropped = False
+                if kind == "try":
+                    # `env.te.find_type(id)?;` — the match that `?` desugars to is an expression statement
+                    q = at
+                    while q is not None and not (q.get("k") == "match" and q.get("src") == "TryDesugar"):
+                        q = t.up(q)
+                    up = t.up(q) if q is not None else None
+                    dropped = up is not None and up.get("k") == "semi"
+                ok = guarded(t, n) or (meth in EXISTS_ONLY and dropped)
+                chk.expect(ok, f"declaration-pass:order-independent:{k.rsplit('::', 1)[-1]}:{meth}",
+                           f"{k.rsplit('::', 1)[-1]} runs during the declaration pass and calls TypeEnv::{meth} on the partially built environment without a "
+                           f"`!env.pre` guard (and not as a bare existence test `find_type(id)?;`): definitions not yet checked are still `unknown`, so the "
+                           f"verdict depends on the order of the definitions — the printer's name-ordered output of an accepted program can be rejected",
+                           where=where(t, n), ok_detail="guarded by !env.pre" if guarded(t, n) else "existence test only (value dropped)")
+        chk.floor("environment lookups in the declaration pass", n_sites, 2)
+
     for rid, desc, fn in (("C14.R1", "each well-formedness rule has an enforcing check on every accepting path", r1),
                           ("C14.R2", "recursive walkers over a checked environment guard the Var arm with a visited set", r2),
-                          ("C14.R3", "labels, method names and argument names are sorted and checked unique; imported method hashes are unique", r3)):
+                          ("C14.R3", "labels, method names and argument names are sorted and checked unique; imported method hashes are unique", r3),
+                          ("C14.R4", "the declaration pass never resolves a name through the partially built environment (acceptance is independent of definition order)", r4)):
         if only and only != rid:
             continue
         chk.run_rule(rid, desc, fn)
